@@ -57,6 +57,9 @@ TOPOLOGIES = {
                                         E('helical', n=10, J=1e-6, helix=15.0), E('helical', n=35, J=3e-5, helix=15.0),
                                         E('spur', n=12, J=2e-6), E('spur', n=48, J=8e-5)],
                links=[('joint',), ('joint',), ('worm', 0.05), ('joint',), ('mate', 0.9), ('joint',), ('mate', 0.95)]),
+    # an idler gear: slave of one mating and master of the next, no fixed joint in between
+    'T10': dict(motor=MOTOR_A, elements=[E('spur', n=10, J=1e-6), E('spur', n=20, J=2e-6), E('spur', n=50, J=4e-5)],
+                links=[('joint',), ('mate', 0.9), ('mate', 0.8)]),
     # two worm stages: the self-locking one first (T8) / last (T9)
     'T8': dict(motor=MOTOR_B, elements=[E('worm', starts=1, J=1e-6, helix=10.0, pa=20.0),
                                         E('wheel', n=20, J=2e-5, helix=10.0, pa=20.0),
@@ -68,6 +71,10 @@ TOPOLOGIES = {
                                         E('worm', starts=1, J=1e-6, helix=10.0, pa=20.0),
                                         E('wheel', n=20, J=4e-5, helix=10.0, pa=20.0)],
                links=[('joint',), ('worm', 0.05), ('joint',), ('worm', 0.4)]),
+    # self-locking train driven by a motor WITHOUT current data
+    'T11': dict(motor=MOTOR_A, elements=[E('worm', starts=1, J=1e-6, helix=10.0, pa=20.0),
+                                         E('wheel', n=50, J=5e-5, helix=10.0, pa=20.0)],
+                links=[('joint',), ('worm', 0.4)]),
     # self-locking train with gears after the wheel (C13)
     'T7': dict(motor=MOTOR_B, elements=[E('worm', starts=1, J=1e-6, helix=5.0, pa=14.5),
                                         E('wheel', n=30, J=5e-5, helix=5.0, pa=14.5),
@@ -99,6 +106,10 @@ def seeded_topology(rnd, length):
             els.append(E('spur', n=rnd.randint(10, 30), J=J())); links.append(('joint',))
             els.append(E('spur', n=rnd.randint(10, 80), J=J()))
             links.append(('mate', rnd.choice([1, 0.95, 0.9, 0.7, 0.5])))
+            if remaining >= 3 and rnd.random() < 0.35:
+                # the driven gear is an idler: it drives a third gear directly
+                els.append(E('spur', n=rnd.randint(10, 80), J=J()))
+                links.append(('mate', rnd.choice([1, 0.95, 0.9, 0.7])))
         elif c == 'helical_pair':
             hx = float(rnd.choice([0, 10, 20, 35]))
             els.append(E('helical', n=rnd.randint(10, 30), J=J(), helix=hx)); links.append(('joint',))
